@@ -17,7 +17,6 @@ macro "coerce_fin_in" : tactic => `(tactic| (simp_all [applyAction, convTo, chec
 theorem wrap64_toString (n : Int) (h1 : -9223372036854775808 ≤ n) (h2 : n < 9223372036854775808) :
     toString (Int.bmod n 18446744073709551616) = toString n := by rw [wrap64_id n h1 h2]
 
-/-- **C04_arm.** -/
 theorem parseInt64_inRange (s : String) (i : Int) (h : parseInt64 s = some i) : inRange64 i = true := by
   unfold parseInt64 at h
   cases hr : parseIntRaw s with
@@ -163,6 +162,11 @@ theorem C04_arm_symStr (ext : Ext F) (s : Scalar) (v : GoVal F)
   simp [armSoundIn] at hs
 
 
+theorem C04_arm_convStrict (ext : Ext F) (s : Scalar) (t : NumT) (v : GoVal F)
+    (hs : armSoundIn s v.kind (.convStrict t) = true) (hw : v.wf = true) :
+    checkIn ext s v (applyAction ext (.convStrict t) v) = true := by
+  simp [armSoundIn] at hs
+
 /-- **C04_arm.** -/
 theorem C04_arm (ext : Ext F) (laws : ExtLaws ext) (s : Scalar) (a : Action) (v : GoVal F)
     (hs : armSoundIn s v.kind a = true) (hw : v.wf = true) :
@@ -183,6 +187,7 @@ theorem C04_arm (ext : Ext F) (laws : ExtLaws ext) (s : Scalar) (a : Action) (v 
   | neZero => exact C04_arm_neZero ext s v hs hw
   | boolStr => exact C04_arm_boolStr ext s v hs hw
   | symStr => exact C04_arm_symStr ext s v hs hw
+  | convStrict t => exact C04_arm_convStrict ext s t v hs hw
 
 /-- **C04_leaf.**  Table level: whatever arm the regenerated `CoerceIn` table selects for the supplied
 value, if it passes the decidable test the outcome is an error (no resolver call) or a conforming
